@@ -127,6 +127,10 @@ type rInput struct {
 	files  []transformer.ModuleFile
 	fcopy  []transformer.ModuleFile
 	schema string
+	// one plain graph built before the tasks start and queried by all of them
+	// (read-only API on a shared object)
+	sharedG *graph.AuthorizationModelGraph
+	labels  []string
 }
 
 func realise(in *pInput) *rInput {
@@ -142,6 +146,18 @@ func realise(in *pInput) *rInput {
 			os.Exit(2)
 		}
 		r.json = string(b)
+		if g, err := graph.NewAuthorizationModelGraph(proto.Clone(r.pm).(*openfgav1.AuthorizationModel)); err == nil {
+			r.sharedG = g
+			for _, t := range in.Model.Types {
+				r.labels = append(r.labels, t.Name)
+				for _, rel := range t.Relations {
+					r.labels = append(r.labels, t.Name+"#"+rel.Name)
+				}
+			}
+			if len(r.labels) > 8 {
+				r.labels = r.labels[:8]
+			}
+		}
 	case "text", "modfile", "str":
 		r.dsl = in.Text
 		r.json = in.Text
@@ -177,9 +193,9 @@ func detBytes(m proto.Message) string {
 }
 
 var opsByKind = map[string][]string{
-	"model":   {"dsl2proto", "dsl2json", "moddsl2proto", "json2dsl", "proto2dsl", "plaingraph", "wgraph", "assignable"},
-	"jmodel":  {"json2dsl", "proto2dsl", "plaingraph", "wgraph", "assignable", "json2dsl", "proto2dsl"},
-	"text":    {"dsl2proto", "dsl2json", "moddsl2proto", "json2dsl", "modfile"},
+	"model":   {"dsl2proto", "dsl2json", "moddsl2proto", "json2dsl", "proto2dsl", "plaingraph", "wgraph", "assignable", "graphquery", "loadjson", "mustdsl", "lineutils"},
+	"jmodel":  {"json2dsl", "proto2dsl", "plaingraph", "wgraph", "assignable", "json2dsl", "proto2dsl", "graphquery", "loadjson"},
+	"text":    {"dsl2proto", "dsl2json", "moddsl2proto", "json2dsl", "modfile", "loadjson", "mustdsl", "lineutils"},
 	"modset":  {"merge"},
 	"modfile": {"modfile"},
 	"str":     {"validate"},
@@ -257,6 +273,51 @@ func execOp(op pOp, r *rInput) (res string) {
 			return "rejected"
 		}
 		return "graph: " + snapshot(g).text
+	case "graphquery":
+		g := r.sharedG
+		if g == nil {
+			return "no graph"
+		}
+		var sb strings.Builder
+		sb.WriteString(g.GetDOT())
+		rev, err := g.Reversed()
+		if err != nil {
+			return "error: reversed: " + err.Error()
+		}
+		sb.WriteString(rev.GetDOT())
+		for _, a := range r.labels {
+			if n, err := g.GetNodeByLabel(a); err == nil {
+				fmt.Fprintf(&sb, "%s=%d ", a, n.NodeType())
+			}
+			for _, b := range r.labels {
+				p, _ := g.PathExists(a, b)
+				q, _ := rev.PathExists(b, a)
+				fmt.Fprintf(&sb, "%v%v", p, q)
+			}
+		}
+		sb.WriteString(cycleFlags(g.GetCycles()))
+		sb.WriteString(g.GetDOT())
+		return sb.String()
+	case "loadjson":
+		m, err := transformer.LoadJSONStringToProto(r.json)
+		if err != nil {
+			return "error: " + err.Error()
+		}
+		return "model: " + detBytes(m)
+	case "mustdsl":
+		// the Must* variants panic on error: the panic value is the result
+		m := transformer.MustTransformDSLToProto(r.dsl)
+		j := transformer.MustTransformDSLToJSON(r.dsl)
+		return "model: " + detBytes(m) + " json: " + j
+	case "lineutils":
+		lines := strings.Split(r.dsl, "\n")
+		var sb strings.Builder
+		for _, n := range []string{"doc", "a", "viewer", "view", "c1", "group", "parent"} {
+			i1, i2, i3, i4 := utils.GetTypeLineNumber(n, lines), utils.GetRelationLineNumber(n, lines), utils.GetConditionLineNumber(n, lines), utils.GetExtendedTypeLineNumber(n, lines)
+			l, c := utils.ConstructLineAndColumnData(lines, i2, n)
+			fmt.Fprintf(&sb, "%s:%d,%d,%d,%d,%v,%v ", n, i1, i2, i3, i4, l, c)
+		}
+		return sb.String()
 	case "assignable":
 		var out []string
 		for _, td := range r.pm.GetTypeDefinitions() {
@@ -1007,7 +1068,7 @@ func genNarrowWorkload(r *rng, kinds []string) *wlPure {
 	return wl
 }
 
-var allOpKinds = []string{"validate", "modfile", "dsl2proto", "dsl2json", "moddsl2proto", "json2dsl", "proto2dsl", "plaingraph", "wgraph", "assignable", "merge"}
+var allOpKinds = []string{"validate", "modfile", "dsl2proto", "dsl2json", "moddsl2proto", "json2dsl", "proto2dsl", "plaingraph", "wgraph", "assignable", "merge", "graphquery", "loadjson", "mustdsl", "lineutils"}
 
 func coldProcessRaceProbe(b *BatchResult, prop string, seed, run uint64, r *rng) {
 	var wl *wlPure
